@@ -4,7 +4,7 @@
 worktree) to load each file under catch_unwind."""
 import re, sys, zipfile
 out = sys.argv[1]
-z = zipfile.ZipFile('/repo/xlsx/tests/example.xlsx')
+z = zipfile.ZipFile(sys.argv[2] if len(sys.argv) > 2 else '/repo/xlsx/tests/example.xlsx')
 files = {n: z.read(n) for n in z.namelist()}
 
 
